@@ -124,7 +124,10 @@ class YajilinClue(Combinator):
         DIR_MAP = {1: "^", 2: "v", 3: "<", 4: ">"}
         if num == ".":
             return n_read, ["??"]
-        return n_read, [f"{DIR_MAP[int(dir)]}{int(num, 16)}"]
+        n = int(num, 16)
+        if n < 0:
+            return None
+        return n_read, [f"{DIR_MAP[int(dir)]}{n}"]
 
 
 YAJILIN_COMBINATOR = Grid(OneOf(YajilinClue(), Spaces("..", "a")))
